@@ -80,19 +80,27 @@ class Polynomial(Expression):
         if var_less is None:
             var_less = LexicalMonomialOrder()
 
-        self.Base = base
-        self.Unit = unit
-        self.VarLess = var_less
+        object.__setattr__(self, "Base", base)
+        object.__setattr__(self, "Unit", unit)
+        object.__setattr__(self, "VarLess", var_less)
 
         # list of (exponent, coefficient tuples)
         # sorted in increasing order
         # one entry per degree
         if data is None:
-            self.Data = ((1, unit),)
+            object.__setattr__(self, "Data", ((1, unit),))
         else:
-            self.Data = tuple(data)
+            object.__setattr__(self, "Data", tuple(data))
 
         # Remember the Zen, Luke: Sparse is better than dense.
+
+    if __debug__:
+        # immutable, like the dataclass-based expression nodes
+        def __setattr__(self, name, value):
+            raise AttributeError(f"cannot assign to field '{name}'")
+
+        def __delattr__(self, name):
+            raise AttributeError(f"cannot delete field '{name}'")
 
     def coefficients(self):
         return [coeff for (exp, coeff) in self.Data]
